@@ -1461,7 +1461,17 @@ impl KotoVm {
                         }
                     }
                 }
-                unexpected => return unexpected_type("Iterator", &unexpected),
+                unexpected => {
+                    // An @iterator function returned an iterable value that isn't an iterator yet
+                    let iterator = self.make_iterator(unexpected)?;
+                    self.set_register(iterable_register, iterator.into());
+                    return self.run_iterator_next(
+                        result_register,
+                        iterable_register,
+                        jump_offset,
+                        output_is_temporary,
+                    );
+                }
             }
         };
 
